@@ -82,7 +82,7 @@ def search(ctx, deep):
     found = 0
     checked = 0
     for fam in B.FAMS:
-        thetas = B.theta_grid(fam) + [B.theta_random(fam, rng) for _ in range(n_theta)]
+        thetas = B.theta_all(fam) + [B.theta_random(fam, rng) for _ in range(n_theta)]
         for th in thetas:
             c = B.make(fam, th)
 
@@ -155,7 +155,7 @@ def search(ctx, deep):
                     bad('row-independence', {'rows': rows}, {'batch': whole.tolist(), 'solo': solo.tolist()},
                         'row i of a batch = the row evaluated alone')
         # theta ordering
-        ths = sorted(set(B.theta_grid(fam) + [B.theta_random(fam, rng) for _ in range(6)]))
+        ths = sorted(set(B.theta_all(fam) + [B.theta_random(fam, rng) for _ in range(6)]))
         pts = [(rng.uniform(0.02, 0.98), rng.uniform(0.02, 0.98)) for _ in range(25)]
         prev = None
         for th in ths:
